@@ -451,7 +451,7 @@ func verifHosts(l *roundRobinLoadBalancer) []*Host { return l.hosts.Load().([]*H
 // ---------------------------------------------------------------------------------------------
 // C14 (cluster side): every schema-change event taken from the control connection's event channel
 // is handed to the listeners, whatever else is pending. The control loop is checked per iteration:
-//   $evTaken / $evMsg   an event was taken from c.events in this iteration, and its message
+//   $evTaken / $evMsg   an event was taken from c.events (case 4 of the connected select) in this iteration, and its message
 //   $evFwd              a listener was called with it
 // ---------------------------------------------------------------------------------------------
 
@@ -493,6 +493,6 @@ func verifHosts(l *roundRobinLoadBalancer) []*Host { return l.hosts.Load().([]*H
 //@   local $evMsg message.Message = nil
 //@   local $evListeners int = 0
 //@   requires c != nil && c.config.ReconnectPolicy != nil
-//@   after proxycore.getOrUseDefault#* set $evTaken = true; $evFwd = false; $evMsg = event.Body.Message; $evListeners = len(c.listeners)
+//@   after select#* set $evTaken = (selidx == 4); $evFwd = false; $evListeners = len(c.listeners); $evMsg = recv4.Body.Message
 //@   before proxycore.ClusterListener.OnEvent#* set $evFwd = true
 //@   modifies *
